@@ -7,7 +7,7 @@ CONSTANTS
  MaxBatch = 2
  WithFindings = TRUE
 INVARIANTS TypeOK Unique Wait3
-PROPERTIES A_bbNext A_bbDealtIn A_atLeastTwo A_ringSB A_ringDealer A_ringDistinct A_headsUp A_refusedNothing A_refusedOnlyFew A_shortDeck A_smUnique A_smErrUnchanged A_smMembers A_newcomerFlag A_continuity A_rejoinTerms A_waitsUntilRot
+PROPERTIES A_bbNext A_bbDealtIn A_atLeastTwo A_ringSB A_ringDealer A_ringDistinct A_headsUp A_refusedNothing A_refusedOnlyFew A_shortDeck A_buttonsStay A_drawnOnce A_smUnique A_smErrUnchanged A_smMembers A_newcomerFlag A_continuity A_rejoinTerms A_waitsUntilRot
 SYMMETRY Sym
 VIEW V
 CHECK_DEADLOCK FALSE
